@@ -82,6 +82,7 @@ fn fin(x: f64) -> Value {
 #[derive(Clone)]
 struct AxisCase {
     id: String,
+    num: usize,
     kind: &'static str,
     n: usize,
     l: f64,
@@ -97,26 +98,9 @@ fn build_axis(c: &AxisCase) -> Axis {
     }
 }
 
-/// the alpha of `Axis::new_polar`, recomputed (only used to state a bound that Coq then PROVES for the model)
-fn alpha_replica(points: usize) -> f64 {
-    let mut alpha = 0.002_f64;
-    for _ in 0..20 {
-        alpha = -(1.0 - (-alpha).exp()).ln() / (points - 1) as f64;
-    }
-    alpha
-}
-
-fn model_axis(c: &AxisCase) -> String {
-    match c.kind {
-        "cartesian" => format!("(new_cartesian {} {} {})", c.n, rq(c.l), rq(c.off.unwrap_or(0.0))),
-        "spherical" => format!("(new_spherical {} {})", c.n, rq(c.l)),
-        _ => format!("(new_polar {} {})", c.n, rq(c.l)),
-    }
-}
-
-fn sample_indices(n: usize, rng: &mut Rng) -> Vec<usize> {
-    let mut v = vec![0usize, 1, 2, n / 2, n.saturating_sub(2), n.saturating_sub(1)];
-    for _ in 0..2 {
+fn sample_indices(n: usize, extra: usize, rng: &mut Rng) -> Vec<usize> {
+    let mut v = vec![0usize, 1, 2, n.saturating_sub(1)];
+    for _ in 0..extra {
         v.push(rng.below(n.max(1)));
     }
     v.retain(|&k| k < n);
@@ -155,39 +139,54 @@ fn axis_case(c: &AxisCase, rng: &mut Rng) -> (String, Value) {
     }
     rec["grid_in_cell"] = json!(in_cell);
     rec["min_weight"] = fin(w.iter().cloned().fold(f64::INFINITY, f64::min));
-    let m = model_axis(c);
-    let tac = match c.kind {
-        "cartesian" => "c16_cart".to_string(),
-        "spherical" => "c16_sph".to_string(),
-        _ => format!("c16_polar {}_alpha", c.id),
+    // the model terms are the evaluation forms of coq/theories/AxisEvalC16.v; each is proved equal to the
+    // corresponding field of new_cartesian / new_spherical / new_polar for all n, k (lemmas *_eval)
+    let l = rq(c.l);
+    let off = rq(c.off.unwrap_or(0.0));
+    let al = format!("(polar_alpha_Z {n})");
+    let term = |what: &str, k: usize| -> String {
+        match (c.kind, what) {
+            ("cartesian", "grid") => format!("cart_grid_Z {n} {l} {off} {k}"),
+            ("cartesian", "edge") => format!("cart_edge_Z {n} {l} {off} {k}"),
+            ("cartesian", "weight") => format!("cart_weight_Z {n} {l} {off}"),
+            ("cartesian", "volume") => format!("cart_volume_Z {n} {l} {off}"),
+            ("cartesian", _) => format!("cart_length_Z {n} {l} {off}"),
+            ("spherical", "grid") => format!("sph_grid_Z {n} {l} {k}"),
+            ("spherical", "edge") => format!("sph_edge_Z {n} {l} {k}"),
+            ("spherical", "weight") => format!("sph_weight_Z {n} {l} {k}"),
+            ("spherical", "volume") => format!("sph_volume_Z {n} {l}"),
+            ("spherical", _) => format!("sph_length_Z {n} {l}"),
+            (_, "grid") => format!("polar_grid_Z {n} {l} {al} {k}"),
+            (_, "edge") => if k == 0 { "0".to_string() } else { format!("polar_edge_Z {n} {l} {al} {k}") },
+            (_, "weight") => match k {
+                0 => format!("polar_w0_Z {n} {l} {al}"),
+                1 => format!("polar_w1_Z {n} {l} {al}"),
+                _ => format!("polar_wk_Z {n} {l} {al} {k}"),
+            },
+            (_, "volume") => format!("polar_volume_Z {n} {l} {al}"),
+            (_, _) => format!("polar_length_Z {n} {l} {al}"),
+        }
     };
     let mut goals: Vec<Value> = Vec::new();
-    if c.kind == "polar" {
-        let a = alpha_replica(n);
-        let (lo, hi) = (a * (1.0 - 2e-15), a * (1.0 + 2e-15));
-        writeln!(s, "Lemma {}_alpha : {} <= polar_alpha_Z {} <= {}.\nProof. c16_alpha_bounds. Qed.", c.id, rq(lo), n, rq(hi)).unwrap();
-        rec["alpha_replica"] = json!(a);
-    }
-    let mut goal = |s: &mut String, what: &str, k: Option<usize>, term: String, val: f64, scale: f64| {
-        let name = match k {
-            Some(k) => format!("{}_{}_{}", c.id, what, k),
-            None => format!("{}_{}", c.id, what),
-        };
-        writeln!(s, "Lemma {} : Rabs ({} - {}) <= {}.\nProof. {}. Qed.", name, term, rq(val), tol(scale), tac).unwrap();
-        goals.push(json!({"name": name, "what": what, "k": k, "impl": val}));
+    let mut conj: Vec<String> = Vec::new();
+    let mut goal = |what: &str, k: Option<usize>, val: f64, scale: f64| {
+        let tag = c.num * 1000 + conj.len();
+        conj.push(format!("c16_tag {} (Rabs ({} - {}) <= {})", tag, term(what, k.unwrap_or(0)), rq(val), tol(scale)));
+        goals.push(json!({"tag": tag, "what": what, "k": k, "impl": val}));
     };
-    let idx = sample_indices(n, rng);
+    let idx = sample_indices(n, if c.kind == "polar" { 2 } else { 4 }, rng);
     for &k in &idx {
-        goal(&mut s, "grid", Some(k), format!("ax_grid {m} {k}"), ax.grid[k], ax.grid[k]);
-        goal(&mut s, "weight", Some(k), format!("ax_weights {m} {k}"), w[k], w[k]);
+        goal("grid", Some(k), ax.grid[k], ax.grid[k]);
+        goal("weight", Some(k), w[k], w[k]);
     }
     let mut eidx = idx.clone();
     eidx.push(n);
     for &k in &eidx {
-        goal(&mut s, "edge", Some(k), format!("ax_edges {m} {k}"), ax.edges[k], ax.edges[n]);
+        goal("edge", Some(k), ax.edges[k], ax.edges[n]);
     }
-    goal(&mut s, "volume", None, format!("axis_volume {m}"), vol, vol);
-    goal(&mut s, "length", None, format!("axis_length {m}"), len, len);
+    goal("volume", None, vol, vol);
+    goal("length", None, len, len);
+    writeln!(s, "Lemma {}_all :\n  {}.\nProof. c16_all. Qed.", c.id, conj.join(" /\\\n  ")).unwrap();
     rec["goals"] = json!(goals);
     rec["samples"] = json!(idx);
     (s, rec)
@@ -394,6 +393,7 @@ where
     let excess_n = (ntot - bulk.density.to_reduced() * volume) / (bulk.density.to_reduced() * volume);
     json!({
         "points": rho.len() / ci.len(), "segments": ci.len(), "lanczos": lanczos,
+        "temperature": t, "partial_density": pd.to_vec(),
         "volume": volume, "integral_of_one": int_one,
         "init_density_dev": init_dev,
         "wd_rows": wd_rows, "wd_dev": fin(wd_dev),
@@ -424,6 +424,17 @@ fn main() {
     let cli = Cli::parse("/verif/coq/gen/C16");
     let mut rng = Rng(cli.seed.wrapping_mul(0x9E3779B97F4A7C15) ^ 0xC16);
     let full = cli.full();
+    // replay mode: --axis <kind> <n> <l> [<offset>] prints what the implementation does for one axis
+    if let Some(pos) = cli.args.iter().position(|a| a == "--axis") {
+        let kind: &'static str = match cli.args[pos + 1].as_str() { "cartesian" => "cartesian", "spherical" => "spherical", _ => "polar" };
+        let n: usize = cli.args[pos + 2].parse().unwrap();
+        let l: f64 = cli.args[pos + 3].parse().unwrap();
+        let off = cli.args.get(pos + 4).and_then(|x| x.parse::<f64>().ok());
+        let c = AxisCase { id: "R0".into(), num: 0, kind, n, l, off };
+        let (_, rec) = axis_case(&c, &mut rng);
+        println!("{}", serde_json::to_string_pretty(&rec).unwrap());
+        return;
+    }
 
     // ---------------- Part A: axes
     let mut cases: Vec<AxisCase> = Vec::new();
@@ -431,7 +442,7 @@ fn main() {
     let nrand = if full { 24 } else { 3 };
     let mut id = 0;
     let mut push = |cases: &mut Vec<AxisCase>, kind: &'static str, n: usize, l: f64, off: Option<f64>| {
-        cases.push(AxisCase { id: format!("A{id}"), kind, n, l, off });
+        cases.push(AxisCase { id: format!("A{id}"), num: id, kind, n, l, off });
         id += 1;
     };
     for kind in ["cartesian", "spherical", "polar"] {
@@ -449,7 +460,7 @@ fn main() {
         }
     }
     let mut recs = Vec::new();
-    let nfiles = 12usize;
+    let nfiles = 16usize;
     let mut files: Vec<String> = vec![header(); nfiles];
     // polar cases are the expensive ones: spread them evenly
     let mut order: Vec<usize> = (0..cases.len()).collect();
@@ -477,21 +488,25 @@ fn main() {
     let specs = grid_specs(&mut rng, full);
     let fmt = fmt_functional(FMTVersion::WhiteBear, &[3.2]);
     let bulk_fmt = bulk_state(&fmt, 300.0, &[0.02]);
-    let mut gs = header();
     let mut grid_recs = Vec::new();
+    let mut grid_files = Vec::new();
     for (spec, dim) in &specs {
         let r = run_uniform(spec, *dim, &bulk_fmt, None);
         let mut rec = json!({"name": spec.name, "model": spec.model, "dim": dim, "result": r.clone()});
         if let (Some(v), Some(i1)) = (r["volume"].as_f64(), r["integral_of_one"].as_f64()) {
+            let mut gs = header();
             writeln!(gs, "Lemma G_{}_volume : Rabs (grid_volume {} - {}) <= {}.\nProof. rewrite {} by c16_le. c16_norm. interval with (i_prec 80). Qed.",
                 spec.name, spec.model, rq(v), tol(v), spec.lemma).unwrap();
             writeln!(gs, "Lemma G_{}_integral : Rabs (integrate {} (fun _ => 1) - {}) <= {}.\nProof. rewrite <- constructed_grid_volume by (repeat constructor; c16_le). rewrite {} by c16_le. c16_norm. interval with (i_prec 80). Qed.",
                 spec.name, spec.model, rq(i1), tol(i1), spec.lemma).unwrap();
-            rec["goals"] = json!([format!("G_{}_volume", spec.name), format!("G_{}_integral", spec.name)]);
+            let fname = format!("grid_{}.v", spec.name);
+            std::fs::write(format!("{}/{}", cli.out, fname), gs).unwrap();
+            rec["file"] = json!(fname);
+            rec["goals"] = json!(2);
+            grid_files.push(fname);
         }
         grid_recs.push(rec);
     }
-    std::fs::write(format!("{}/grids.v", cli.out), gs).unwrap();
 
     // ---------------- Part C: support run of H_conv on the real convolvers
     let mut uni = Vec::new();
@@ -551,6 +566,7 @@ fn main() {
         "axes": recs,
         "axis_files": (0..nfiles).map(|i| format!("ax_{i}.v")).collect::<Vec<_>>(),
         "grids": grid_recs,
+        "grid_files": grid_files,
         "uniform": uni,
     }));
 }
